@@ -15,6 +15,7 @@ extern "C" {
 constexpr bool vf_finite(fixed_t x) { return x.v >= -MAXV && x.v <= MAXV; }
 constexpr bool vf_isnan(fixed_t x)  { return x.v == NANV || x.v == -NANV; }
 constexpr bool vf_valid(fixed_t x)  { return x.v >= -NANV; }  // finite or +-NaN: everything but INT64_MIN
+constexpr bool post_any1(fixed_t, fixed_t) { return true; }
 void vf_require(bool);
 void vf_ensure(bool);
 }
